@@ -29,7 +29,7 @@ import random
 
 import vlib
 
-CLAUSES = ("CanonUntouched", "ViewIsolated", "CanonMatchesControl", "HistoricalExact", "ResetRestores",
+CLAUSES = ("CanonUntouched", "ViewIsolated", "CanonMatchesControl", "HistoricalExact", "ResetRestores", "CommitExact",
            "SameContentSameRoot", "CallFailed", "Panic")
 WRITE_EVS = ("CanonWrite", "ViewWrite")
 KINDS = ("acc", "idn", "glb", "ssw", "dsw", "dpn", "dis", "brn", "cval", "ccode", "ist")   # order of the read-back digests (d_stateviews)
@@ -89,16 +89,27 @@ def slots_of(path):
     return res
 
 
-def bind_case(cases, binder, path, lead_kind=None, tag=""):
+def bind_case(cases, binder, path, lead_kind=None, tag="", lead_method=None, combo=None):
     slots = slots_of(path)
     bind = {}
     for i, s in enumerate(slots):
+        if i == 0 and lead_method:
+            bind[str(s)] = lead_method["name"]
+            continue
         if i == 0:
             k = lead_kind or binder.other_kind(None)
         else:
             k = binder.other_kind(lead_kind)
         bind[str(s)] = binder.method(k)
-    lvl, deep = binder.combo(path)
+    if combo:
+        lvl, deep = combo
+    elif lead_method:
+        # the most observant combination: AppState API (validators cache, read-only cache, nonce cache on top of the
+        # StateDB constructors) with read-backs after every call
+        ro_write = any(s["ev"] == "ViewWrite" and s["ctor"] == "readonly" for s in path)
+        lvl, deep = ("sdb" if ro_write else "app"), True
+    else:
+        lvl, deep = binder.combo(path)
     cases.append({"id": len(cases), "lvl": lvl, "deep": deep, "bind": bind, "path": path, "tag": tag})
 
 
@@ -158,6 +169,8 @@ def describe(clause, rows, line):
                     fields += obs_diff(p["v"][x], o["v"][x])
         elif clause == "CanonMatchesControl":
             fields = [f for f in obs_diff(o["t"], o["c"], {"vers": o["tx"]["vers"]}, {"vers": o["cx"]["vers"]}) if f != "vc"]
+        elif clause == "CommitExact":
+            fields = [f for f in obs_diff(row.get("hist") or {}, o["c"]) if f != "vc"]
         elif clause in ("HistoricalExact", "ResetRestores"):
             # what was committed at the height concerned, as the driver's historian saw it
             top, com = 2, {1: head["gen"][0], 2: head["gen"][1]}
@@ -254,13 +267,20 @@ def _run(ctx, quick):
     cfg = "MC_StateViews_quick.cfg" if quick else "MC_StateViews_thorough.cfg"
     nwalk, depth = (120, 14) if quick else (1500, 22)
     acfg = "MC_StateViews_adopt.cfg" if quick else "MC_StateViews_adopt_thorough.cfg"
-    with concurrent.futures.ThreadPoolExecutor(max_workers=3) as ex:
+    with concurrent.futures.ThreadPoolExecutor(max_workers=4) as ex:
         f1 = ex.submit(vlib.tlc, ctx, "MC_StateViews.tla", cfg, workers=1, timeout=3000, sub="tlc_sv_model")
         f2 = ex.submit(vlib.tlc, ctx, "MC_StateViews.tla", "MC_StateViews_sim.cfg", workers=1, timeout=1800, sub="tlc_sv_sim",
                        extra=["-simulate", "num=%d" % nwalk, "-depth", str(depth), "-seed", str(ctx.seed)], simulate=True)
         # the node's block-adoption flow (views at the head, Precommit diffs applied with AddDiff + CommitTrees), deeper
         f3 = ex.submit(vlib.tlc, ctx, "MC_StateViews.tla", acfg, workers=1, timeout=3000, sub="tlc_sv_adopt")
+        # thorough: the general model one step deeper, properties only (no export)
+        f4 = None if quick else ex.submit(vlib.tlc, ctx, "MC_StateViews.tla", "MC_StateViews_deep.cfg", workers=max(2, ctx.cores // 2),
+                                          timeout=3000, sub="tlc_sv_deep", want_exports=False)
         r, rs, ra = f1.result(), f2.result(), f3.result()
+        rd = f4.result() if f4 else None
+    if rd is not None and not rd.ok:
+        raise vlib.CheckError("design-level StateViews model (deep) violates %s (model-only counterexample, not a verdict):\n%s"
+                              % (rd.invariant, (rd.error or "")[:2000]))
     if not ra.ok:
         raise vlib.CheckError("design-level StateViews adoption model violates %s (model-only counterexample, not a verdict):\n%s"
                               % (ra.invariant, (ra.error or "")[:2000]))
@@ -283,14 +303,27 @@ def _run(ctx, quick):
 
     # 3. binding
     cases = []
-    full_len, part_len, part_kinds = (3, 4, 3) if quick else (4, 5, 4)
-    n_cross = 0
+    full_len, part_len, part_kinds = (3, 4, 4) if quick else (4, 5, 4)
+    n_cross = n_vw_paths = 0
     for path in paths:
         has_write = any(s["ev"] in WRITE_EVS for s in path)
+        if len(path) <= full_len and any(s["ev"] == "ViewWrite" for s in path):
+            # short path with a write by a view x EVERY method (thorough: the 4-step ones x a rotating third of the methods)
+            stride = 1 if len(path) <= 3 else 3
+            n_vw_paths += 1
+            for i, m in enumerate(methods):
+                if (i + n_vw_paths) % stride == 0:
+                    bind_case(cases, binder, path, lead_kind=m["kind"], tag="method", lead_method=m)
+                    n_cross += 1
+            continue
         if has_write and len(path) <= full_len:
             ks = binder.kinds                                            # short path with a write x EVERY kind of buffer
         elif has_write and len(path) <= part_len:
             ks = [binder.other_kind(None) for _ in range(part_kinds)]    # longer: a rotating subset of the kinds
+        elif not has_write:
+            for combo in COMBOS:                                         # nothing to bind: both levels x both read-back modes
+                bind_case(cases, binder, path, tag="stratum", combo=combo)
+            continue
         else:
             ks = [None] * (1 if quick else 2)
         for k in ks:
@@ -374,7 +407,8 @@ def _run(ctx, quick):
     for c in cases:
         by_tag[c["tag"]] = by_tag.get(c["tag"], 0) + 1
     return {
-        "states": r.distinct + ra.distinct, "transitions": r.generated + ra.generated, "model_cfg": [cfg, acfg],
+        "states": r.distinct + ra.distinct + (rd.distinct if rd else 0), "transitions": r.generated + ra.generated + (rd.generated if rd else 0),
+        "model_cfg": [cfg, acfg] + (["MC_StateViews_deep.cfg"] if rd else []),
         "strata_exported": len(paths) + len(apaths),
         "simulation_walks": len(walks), "simulation_depth": depth,
         "traces_validated_against_impl": len(cases), "trace_lines_validated": lines, "cases_by_origin": by_tag,
@@ -383,11 +417,12 @@ def _run(ctx, quick):
         "calls_performed": {k[3:]: v for k, v in sorted(stats.items()) if k.startswith("ev:")},
         "panics": stats.get("panics", 0),
         "samples": [cases[0]["path"], cases[len(cases) // 2]["path"][:8], walks[0][:10]],
-        "rule": "every stratum of the bounded StateViews model (set of step classes before x class of the step x 'another party wrote "
-                "before'; 2 views, 2 slots, <= %d steps) performed on the real StateDB/IdentityStateDB/AppState; every path with a write of "
-                "<= %d steps crossed with all %d kinds of buffer (<= %d steps: with %d kinds in rotation); every one of the %d mutating methods "
-                "driven on a view; %d random walks (3 views, 3 slots, depth %d)" % (
-                    4 if quick else 5, full_len, len(binder.kinds), part_len, part_kinds, len(methods), len(walks), depth),
+        "rule": "every stratum of the bounded StateViews model (set of step classes before x classes of the two steps just before x "
+                "situated class of the step x 'another party wrote before'; 2 views, 2 slots, <= %d steps; + the block-adoption flow "
+                "AddDiff/CommitTrees with views at the head, <= %d steps) performed on the real StateDB/IdentityStateDB/AppState; every path with a write of "
+                "<= %d steps crossed with all %d kinds of buffer, with a write by a view: with EVERY method (<= %d steps: with %d kinds in "
+                "rotation); every one of the %d mutating methods driven on a view; %d random walks (3 views, 3 slots, depth %d)" % (
+                    4 if quick else 5, 7 if quick else 8, full_len, len(binder.kinds), part_len, part_kinds, len(methods), len(walks), depth),
     }
 
 
